@@ -360,3 +360,63 @@ def _on_instr(code, offset):
     s = _installed["sched"]
     if s is not None and s.active:
         s.yield_point("instr", None)
+
+
+# ---- bounded-preemption systematic exploration ----------------------------------------------------
+COARSE = {"lock.acquire", "lock.release", "file.write", "event.set", "event.wait", "thread.start", "thread.join",
+          "block", "exit", "start"}
+
+
+class PreemptAt(Strategy):
+    """Non-preemptive by default (the running thread continues; when it cannot, the first enabled thread in spawn
+    order runs) except at the listed coarse decision points, where the named thread is scheduled instead.
+    Records every coarse decision point with its alternatives, so that a driver can enumerate all placements of
+    up to c preemptions (CHESS-style iterative context bounding)."""
+
+    def __init__(self, plan=(), kinds=COARSE):
+        self.plan = dict(plan)
+        self.points = []        # (index, running thread name or None, [enabled names])
+        self.n = 0
+        self.kinds = kinds      # None = every yield point (lines and instructions too) is a decision point
+
+    def choose(self, sched, current, enabled, kind):
+        default = current if (current is not None and current in enabled) else enabled[0]
+        if self.kinds is not None and kind not in self.kinds:
+            return default
+        if len(enabled) == 1 and self.kinds is None:
+            return default
+        idx = self.n
+        self.n += 1
+        names = [t.name for t in enabled]
+        self.points.append((idx, default.name, names))
+        want = self.plan.get(idx)
+        if want is not None:
+            for t in enabled:
+                if t.name == want:
+                    return t
+        return default
+
+
+def explore_bounded(run, bound=1, max_runs=200, kinds=COARSE):
+    """run(strategy) executes one schedule and returns anything; yields (plan, strategy, result) for the
+    non-preemptive schedule and for every placement of up to `bound` alternative choices at coarse points,
+    depth-first, up to max_runs schedules.  Returns through StopIteration whether the space was exhausted."""
+    stack = [()]
+    runs = 0
+    while stack:
+        if runs >= max_runs:
+            return False
+        plan = stack.pop()
+        strat = PreemptAt(plan, kinds)
+        result = run(strat)
+        runs += 1
+        yield plan, strat, result
+        if len(plan) < bound:
+            start = (plan[-1][0] + 1) if plan else 0
+            for idx, running, names in strat.points:
+                if idx < start:
+                    continue
+                for name in names:
+                    if name != running:
+                        stack.append(plan + ((idx, name),))
+    return True
